@@ -61,7 +61,11 @@ class PestGrammarError(Exception):
                 break
 
         if target_line_index == -1:
-            raise ValueError("index is out of bounds for the given string")
+            # `index` is at the end of `text`.
+            if not lines or lines[-1] != lines[-1].splitlines()[0]:
+                # After a trailing line break (or in an empty text).
+                lines.append("")
+            target_line_index = len(lines) - 1
 
         # Line number (1-based)
         line_number = target_line_index + 1
